@@ -687,3 +687,118 @@ def run_conn_case(case: dict) -> dict:
             oracle.append((i, "more-connections-than-max-sessions", f"{len(obj._connections)} > {case['max']}"))
         impl.append(f"ret {1 if r else 0} {show()}")
     return {"impl": impl, "lines": lines, "oracle": oracle}
+
+
+# --------------------------------------------------------------------------------------------------- attack loops of the red applications
+BOT_TYPES = {"dos": "dos-bot", "dm": "data-manipulation-bot", "rw": "ransomware-script"}
+
+
+def gen_bot_case(rng: Rng) -> dict:
+    kind = rng.choice(["dos", "dos", "dm", "dm", "dm", "rw"])
+    return {"kind": kind, "state": rng.choice(["RUNNING", "RUNNING", "RUNNING", "CLOSED", "INSTALLING"]),
+            "node_on": not rng.chance(1, 6), "configured": not rng.chance(1, 6), "repeat": rng.chance(1, 2),
+            "stage": rng.choice([0, 0, 1, 2, 3] if kind == "dos" else [0, 0, 0, 1, 2, 2, 3, 4, 5]), "trials": [rng.chance(2, 3), rng.chance(2, 3)],
+            "sessions": rng.choice([0, 1, 3, 7]), "has_client": not rng.chance(1, 5), "offer": rng.choice([None, True, True, False]),
+            "conn": rng.choice([None, None, True, False]),
+            "entry": rng.choice(["loop", "loop", "loop", "attack", "tick", "run"])}
+
+
+class _CountingConn(FakeDbConnection):
+    def __init__(self, ok, counter):
+        super().__init__(ok)
+        self.counter = counter
+
+    def query(self, sql):
+        self.counter["queries"] += 1
+        return self.ok
+
+
+def run_bot_case(case: dict) -> dict:
+    """one call of a bot's attack loop (or of another entry point) on a real instance put into the given state; the model
+    line carries the state before the call, the answer is the state after it and how often the bot acted"""
+    base.load()
+    from ipaddress import IPv4Address
+    from primaite.simulator.network.hardware.node_operating_state import NodeOperatingState
+    from primaite.simulator.system.applications.application import ApplicationOperatingState
+    import primaite.simulator.system.applications.red_applications.data_manipulation_bot as dm_mod
+    import primaite.simulator.system.applications.red_applications.dos_bot as dos_mod
+    node = base.make_node("computer", {"power": "ON", "up": 0, "down": 0, "kind": "computer", "hostname": "bot_host"})
+    sm = node.software_manager
+    kind = case["kind"]
+    cls = base.registries()[1][BOT_TYPES[kind]]
+    from primaite.simulator.system.applications.database_client import DatabaseClient
+    if kind != "dos" and case["has_client"]:
+        sm.install(DatabaseClient)
+    sm.install(cls)
+    bot = sm.software[BOT_TYPES[kind]]
+    counter = {"queries": 0, "asked": 0, "connects": 0, "trials": 0}
+    script = list(case["trials"])
+
+    def trial(p):
+        counter["trials"] += 1
+        return script.pop(0) if script else False
+    saved = (dos_mod.simulate_trial, dm_mod.simulate_trial)
+    dos_mod.simulate_trial = trial
+    dm_mod.simulate_trial = trial
+    try:
+        dbc = sm.software.get("database-client")
+        if dbc is not None:
+            def offer(*a, **k):
+                counter["asked"] += 1
+                return None if case["offer"] is None else _CountingConn(bool(case["offer"]), counter)
+            object.__setattr__(dbc, "get_new_connection", offer)
+        if kind == "dos":
+            object.__setattr__(bot, "connect", lambda *a, **k: (counter.__setitem__("connects", counter["connects"] + 1), True)[1])
+            bot.max_sessions = case["sessions"]
+            bot.dos_intensity = 1.0
+            bot.repeat = case["repeat"]
+            bot.target_ip_address = IPv4Address("192.168.1.77") if case["configured"] else None
+            bot.attack_stage = dos_mod.DoSAttackStage(case["stage"])
+        else:
+            bot.server_ip_address = IPv4Address("192.168.1.77") if case["configured"] else None
+            bot.payload = "DELETE"
+            if kind == "dm":
+                bot.repeat = case["repeat"]
+                bot.attack_stage = dm_mod.DataManipulationAttackStage(case["stage"])
+            bot._db_connection = None if case["conn"] is None else _CountingConn(bool(case["conn"]), counter)
+        bot.operating_state = ApplicationOperatingState[case["state"]]
+        if case["state"] == "INSTALLING":
+            bot.install_countdown = 2
+        node.operating_state = NodeOperatingState.ON if case["node_on"] else NodeOperatingState.OFF
+        can = bool(bot._can_perform_action())
+        entry = case["entry"]
+        if entry == "loop" or (entry in ("attack",) and kind == "dos"):
+            ret = bot._application_loop()
+            entry = "loop"
+        elif entry == "attack":
+            ret = bot.attack()
+        elif entry == "tick":
+            bot.apply_timestep(1)
+            ret = None
+        else:
+            ret = bot.run()
+        can_after = bool(bot._can_perform_action())
+    finally:
+        dos_mod.simulate_trial, dm_mod.simulate_trial = saved
+    b = lambda x: 1 if x else 0   # noqa
+    ob = lambda x: "-" if x is None else (1 if x else 0)   # noqa
+    oracle = []
+    acted = counter["connects"] + counter["queries"] + counter["asked"]
+    if acted and not (can or can_after):
+        oracle.append(("bot-acted-while-not-running", f"{kind} {entry} in {case['state']}/node {'ON' if case['node_on'] else 'OFF'}: {counter}"))
+    lines, impl = [], []
+    if entry == "loop":
+        if kind == "dos":
+            lines.append(f"bot dos {b(can)} {b(case['configured'])} {b(case['repeat'])} {b(case['trials'][0])} {case['sessions']} {case['stage']}")
+            impl.append(f"stage={bot.attack_stage.value} connects={counter['connects']} trials={counter['trials']} ret={b(ret)}")
+        elif kind == "dm":
+            conn = bot._db_connection
+            lines.append(f"bot dm {b(can)} {b(case['configured'])} {b(case['repeat'])} {b(dbc is not None)} {ob(case['offer'])} "
+                         f"{''.join(str(b(t)) for t in case['trials'])} {ob(case['conn'])} {case['stage']}")
+            impl.append(f"stage={bot.attack_stage.value} conn={'-' if conn is None else b(conn.ok)} asked={counter['asked']} "
+                        f"queries={counter['queries']} trials={counter['trials']} ret={b(ret)}")
+        else:
+            conn = bot._db_connection
+            lines.append(f"bot rw {b(can)} {b(case['configured'])} {b(dbc is not None)} {ob(case['offer'])} {ob(case['conn'])}")
+            impl.append(f"conn={'-' if conn is None else b(conn.ok)} asked={counter['asked']} queries={counter['queries']} ret={b(ret)}")
+    return {"lines": lines, "impl": impl, "oracle": oracle, "entry": entry, "acted": acted, "can": can}
